@@ -363,8 +363,11 @@ class Check:
         ev = dict(property_id=self.pid, tier=self.tier if self.tier in ("quick", "thorough") else "quick",
                   seed=self.seed, level=self.level, coverage=cov, assumptions=self.assumptions,
                   wall_s=round(time.time() - self.t0, 2), violations=len(self.violations))
-        os.makedirs(os.path.join(VERIF, "evidence"), exist_ok=True)
-        json.dump(ev, open(os.path.join(VERIF, "evidence", self.pid + ".json"), "w"), indent=1)
+        # evidence under /verif/evidence describes runs against /repo itself; a run against another tree
+        # (VERIF_REPO: seeded changes, proposed fixes) writes its evidence to a scratch location instead
+        evdir = os.path.join(VERIF, "evidence") if os.path.realpath(REPO) == "/repo" else os.environ.get("VERIF_EVIDENCE_DIR", "/tmp/verif-evidence-other-tree")
+        os.makedirs(evdir, exist_ok=True)
+        json.dump(ev, open(os.path.join(evdir, self.pid + ".json"), "w"), indent=1)
         for (op, cls), desc in sorted(self.known_hits.items()):
             print("KNOWN-FINDING: property=%s %s/%s %s" % (self.pid, op, cls, desc))
         seen = set()
